@@ -1917,3 +1917,116 @@ func VH_C15_pipeline_writer_storage_error() {
 	vReach("reported")
 	vReach("end")
 }
+
+// vLaggingAckPeer: handshake ok; probes and the first pipelined request are acknowledged, but the reply to pipelined
+// request k is sent only after request k+1 has been read completely (the peer's replies lag one request behind);
+// the last request read stays unanswered.
+func vLaggingAckPeer(conn *vPipeEnd, acked *uint64) {
+	br := bufio.NewReader(conn)
+	bw := bufio.NewWriter(conn)
+	appends := 0
+	var pending *appendResp
+	for {
+		b, err := br.ReadByte()
+		if err != nil {
+			return
+		}
+		switch rpcType(b) {
+		case rpcIdentity:
+			q := &identityReq{}
+			if q.decode(br) != nil {
+				return
+			}
+			_ = (&identityResp{resp{term: q.term, result: success}}).encode(bw)
+		case rpcAppendEntries:
+			q := &appendReq{}
+			if q.decode(br) != nil {
+				return
+			}
+			for k := uint64(0); k < q.numEntries; k++ {
+				e := &entry{}
+				if e.decode(br) != nil {
+					return
+				}
+			}
+			appends++
+			mine := &appendResp{resp{term: q.term, result: success}, q.prevLogIndex + q.numEntries}
+			if appends == 1 {
+				// the probe (a heartbeat at the leader's last index): answered at once
+				*acked = mine.lastLogIndex
+				_ = mine.encode(bw)
+			} else {
+				if pending != nil {
+					*acked = pending.lastLogIndex
+					_ = pending.encode(bw)
+				}
+				pending = mine
+			}
+		default:
+			return
+		}
+		if bw.Flush() != nil {
+			return
+		}
+	}
+}
+
+//verif:check C06,C02,C03 sched=coop maxsteps=800000 onunwind=violation stubs=rt,timers,valuefile,abslog onblock=violation reach=two-in-flight,credited,end desc="the real replication goroutine with two pipelined requests in flight, of which the peer has answered only the first: the match index the leader is told (what it counts towards the majority that commits) never exceeds what the peer has acknowledged - a reply to an earlier request does not credit the entries of later, unanswered requests" bounds="leader log of 1 entry, then two client entries stored one after the other while the pipeline runs; scripted peer whose replies lag one request behind"
+func VH_C06_pipeline_ack_credit() {
+	r := vLoopNode(Leader)
+	r.hbTimeout = 1000
+	var acked uint64
+	var peerEnd *vPipeEnd
+	r.dialFn = func(network, address string, timeout time.Duration) (net.Conn, error) {
+		a, b := vPipe()
+		peerEnd = b
+		go vLaggingAckPeer(b, &acked)
+		return a, nil
+	}
+	r.resolver.addrs[2] = vAddr(2)
+	l := r.ldr
+	l.replUpdateCh = make(chan replUpdate, 64)
+	repl := &replication{
+		node: r.configs.Latest.Nodes[2], rtime: newRandTime(),
+		status:        replicationStatus{id: 2, node: r.configs.Latest.Nodes[2]},
+		ldrStartIndex: 1, ldrLastIndex: r.lastLogIndex, nextIndex: r.lastLogIndex + 1,
+		connPool: r.getConnPool(2), hbTimeout: r.hbTimeout, timer: newSafeTimer(),
+		log: r.log.ViewAt(0, r.lastLogIndex), snaps: r.snaps,
+		stopCh: make(chan struct{}), replUpdateCh: l.replUpdateCh, leaderUpdateCh: make(chan leaderUpdate, 1),
+	}
+	areq := &appendReq{req: req{r.term, r.nid}, ldrCommitIndex: r.commitIndex, prevLogIndex: r.lastLogIndex, prevLogTerm: r.lastLogTerm}
+	ended := make(chan struct{})
+	go func() { repl.runLoop(areq); close(ended) }()
+	step := 0
+	checkUpdates := func() {
+		for len(l.replUpdateCh) > 0 {
+			u := <-l.replUpdateCh
+			if m, ok := u.update.(matchIndex); ok {
+				vAssert(m.val <= acked, "PA-match-index-told-to-the-leader-was-acknowledged-by-the-peer")
+				if m.val > 1 {
+					vReach("credited")
+				}
+			}
+		}
+	}
+	vSetIdleHook(func() {
+		checkUpdates()
+		switch step {
+		case 0, 1, 2:
+			// a client entry arrives at the leader; the pipeline sends it while earlier requests are unanswered
+			r.storage.appendEntry(&entry{index: r.lastLogIndex + 1, term: r.term, typ: entryUpdate, data: vBytes("cmd", 1)})
+			repl.leaderUpdateCh <- leaderUpdate{log: r.log.ViewAt(0, r.lastLogIndex), commitIndex: r.commitIndex}
+			if step == 1 {
+				vReach("two-in-flight")
+			}
+		case 3:
+			_ = peerEnd.Close() // the connection drops with the last request unanswered
+		case 4:
+			close(repl.stopCh)
+		}
+		step++
+	})
+	<-ended
+	checkUpdates()
+	vReach("end")
+}
